@@ -395,7 +395,7 @@ fn bounds(p: P, tier: Tier) -> Bounds {
                     },
                     all_pairs.clone(),
                 ),
-                // wide: every kind, every line form, two regions per line; 5 lines (6.5e6 trees)
+                // wide: every kind, every line form, two regions per line; 5 lines (1.4e7 trees)
                 (
                     AstParams {
                         max_lines: 5,
@@ -415,7 +415,7 @@ fn bounds(p: P, tier: Tier) -> Bounds {
                     },
                     // (C01 makes five calls per document and repeats everything on the plain
                     // build: it keeps the two other passes only)
-                    if p == P::C01 { vec![] } else { vec![0, 6] },
+                    if p == P::C01 { vec![] } else { vec![0] },
                 ),
                 // deep: 8 lines, nesting depth 3, two kinds (6.0e5 trees)
                 (
@@ -436,7 +436,7 @@ fn bounds(p: P, tier: Tier) -> Bounds {
             lines: if p == P::C01 {
                 vec![(6, true, vec![0], 4), (5, false, vec![0], 3)]
             } else {
-                vec![(6, true, vec![0, 1], 4), (5, false, vec![0], 3)]
+                vec![(6, true, vec![0], 4), (5, true, vec![1], 3), (5, false, vec![0], 3)]
             },
             tok_deep_pairs: if p == P::C01 { vec![0] } else { vec![0, 1] },
             tok_n: 5,
